@@ -106,6 +106,20 @@ CHECKS = {
 		note='CPU dispatch is varied on this sandbox CPU only. One genuine defect found and repaired (unstable argsort).',
 		design='DESIGN.md §4 C09',
 	),
+	'C14': dict(
+		category='exploration',
+		technique='Hypothesis-generated pairs/triples of k-mer specs x the full grid of two-source command lines (in-process CLI); oracle: error/exit/no-output on mismatch, else distances under the shared spec (R-KMER -> R-JAC)',
+		text='For generated database / query-file / reference-file / explicit-option parameter combinations every command that brings two signature sources together (query -s; dist --qs x {--rs,--use-db,-r,--rl,--square}; dist {-q,--ql} x {--rs,--use-db}; -k without -p; signatures create --db-params with -k/-p) must fail with a reported error, non-zero status and untouched/absent output when any two specs differ, and otherwise produce exactly the distances obtained under the parameters of the pre-computed side.',
+		note='Commands run in-process through click.testing.CliRunner on the working tree. One genuine defect found and repaired (query -s skipped the check).',
+		design='DESIGN.md §4 C14',
+	),
+	'C16': dict(
+		category='exploration',
+		technique='Hypothesis-generated genome sets x 3x5 supply modes x options; CSV parse-back vs R-KMER -> R-JAC -> "%.4f" oracle; --square metamorphic equality',
+		text='The dist command is run for generated query/reference genome sets (multi-contig, gzip, nested directories, file names with commas/quotes/blanks/non-ASCII, any extension) in every combination of supply modes, with/without -k/-p, -c and progress; the CSV is parsed back and header, row labels and every cell are compared with labels derived from the file names / stored IDs and distances from the reference models; --square must be symmetric with zero diagonal and equal the full run on the same genomes.',
+		note='File names exclude newline/NUL// and, for list files, leading/trailing blanks. In-process CLI via CliRunner.',
+		design='DESIGN.md §4 C16',
+	),
 }
 
 NOT_APPLICABLE = {}
